@@ -499,7 +499,7 @@ func runCfgLegacy(c *h.Ctx, r *h.Report) {
 			cs.COrigins = append(cs.COrigins, h.Pick(rr, originPool))
 		}
 		cs.UKind = h.Pick(rr, []string{"unset", "unset", "local", "local", "bolt-abs", "bolt-rel", "bolt-nopath", "unknown"})
-		sizePool := []string{"0", "5", "100", "007", "18446744073709551615", "18446744073709551616", "-1", "1_0", "abc", "1e3", "+3", "3 "}
+		sizePool := []string{"0", "5", "100", "007", "010", "18446744073709551615", "18446744073709551616", "-1", "1_0", "abc", "1e3", "+3", "3 ", "0x10", "0b11", "0o17"}
 		freqPool := []string{"0", "1", "0.5", "0.3", "1e-1", ".5", "x", "0x1p-2", "1_0", "2"}
 		if !rr.Chance(1, 4) {
 			sizePool, freqPool = sizePool[:5], freqPool[:6]
